@@ -442,6 +442,10 @@ impl Property for C14 {
                     ops: vec![
                         ElOp::SetAttr("data-verif".into(), "1".into()),
                         ElOp::SetAttr("data-verif2".into(), "2".into()),
+                        // attributes that are often present in the source get a longer value
+                        ElOp::SetAttr("id".into(), "a-much-longer-value-than-before-0123456789".into()),
+                        ElOp::SetAttr("class".into(), "z".into()),
+                        ElOp::SetAttr("TITLE".into(), "".into()),
                         ElOp::SetTagName("zz".into()),
                         ElOp::OnEndTag(vec![EtOp::SetName("q".into()), EtOp::SetName("zz".into())]),
                         ElOp::Snapshot,
@@ -469,6 +473,24 @@ impl Property for C14 {
                         }
                     },
                     _ => {}
+                }
+            }
+            // attribute ranges after attributes were rewritten: whatever is still reported must lie
+            // inside its tag and slice to the reported name / value (a rewritten value has no range)
+            for e in &h2.evs {
+                if let Ev::Handler { unit: Unit::Element { loc, attrs, .. }, .. } | Ev::Reread { unit: Unit::Element { loc, attrs, .. }, .. } = e {
+                    for a in attrs {
+                        if let Some(n) = a.name_loc {
+                            if n.0 < loc.0 || n.1 > loc.1 || dec(n.0, n.1) != a.name_pc {
+                                return Ok(Err(Fail::new("C14.attr", format!("after rewriting attributes: name range {n:?} of {:?} slices to {:?} (tag {loc:?})", a.name_pc, dec(n.0, n.1)))));
+                            }
+                        }
+                        if let Some(v) = a.value_loc {
+                            if v.0 < loc.0 || v.1 > loc.1 || dec(v.0, v.1) != a.value {
+                                return Ok(Err(Fail::new("C14.attr", format!("after rewriting attributes: value range {v:?} of {:?} slices to {:?}, the value is {:?} (tag {loc:?})", a.name_pc, dec(v.0, v.1), a.value))));
+                            }
+                        }
+                    }
                 }
             }
             let base: BTreeSet<(&'static str, Loc)> = locs.iter().map(|e| (e.1, e.2)).collect();
